@@ -103,6 +103,16 @@ theorem Quad.conj_mul (a b : Quad α) : Quad.conj (a * b) = Quad.conj a * Quad.c
   · simp [Quad.conj]
   · simp [Quad.conj]; ring
 
+/-- The norm is multiplicative and invariant under conjugation. -/
+theorem Quad.norm_mul (a b : Quad α) : Quad.norm (a * b) = Quad.norm a * Quad.norm b := by
+  simp only [Quad.norm_eq, Quad.mul_c0, Quad.mul_c1]; ring
+
+theorem Quad.norm_conj (a : Quad α) : Quad.norm (Quad.conj a) = Quad.norm a := by
+  simp only [Quad.norm_eq, Quad.conj]; ring
+
+theorem Quad.norm_one : Quad.norm (1 : Quad α) = 1 := by
+  simp [Quad.norm_eq]
+
 theorem Quad.double_eq (a : Quad α) : Quad.double a = a + a := rfl
 
 /-- `bn256/fq2.rs: mul_by_nonresidue` is multiplication by `9 + u`. -/
